@@ -168,7 +168,9 @@ class Gram(probe.Contract):
         A = product_tensor(f1).reshape(-1, m1)
         B = product_tensor(f2).reshape(-1, m2)
         want = A.T @ B
-        sc = max(float(np.max(np.abs(want))), 1e-300)
+        # scale of the rounding noise: the sums of absolute products (an inner product may cancel to exactly 0, e.g. odd functions on
+        # mirrored lattice points)
+        sc = max(float(np.max(np.abs(A).T @ np.abs(B))), 1e-300)
         ok = isinstance(res, np.ndarray) and res.shape == want.shape and float(np.max(np.abs(res - want))) <= 1e-10 * sc
         c.check(self.api, 'inner_products_of_transformed_snapshots', ok, ['same_data' if x1 is x2 or np.array_equal(x1, x2) else 'two_data_sets'], {'m1': m1, 'm2': m2, 'modes': [len(f) for f in bl]}, prop=P)
         c.sig(self.api, [len(f) for f in bl], m1, m2)
